@@ -6,7 +6,7 @@ ASSUME = [
     'a POST that was not answered before the kill is unacknowledged: it may be part of the history or not, but never twice; the bridge retries with the same client message id',
     '"all nodes deliver the same sequence" is checked as: the stream served after a fault extends the stream served before it (the node before and after the crash are two servers of the same log)',
     'fresh-network tier (TestVerifC05Fresh): a brand-new network without any history: all sequences of the same depth over {POST /session, POST /config, snapshot, SIGKILL+restart, graceful restart}; every acknowledged session must still exist and the acknowledged config revision must be in force after every operation, and the newest session posts at the end (short histories: the snapshot sees zero, one or two entries)',
-    'network tier (TestVerifC05Net, harness/localnet): three REAL robustirc binaries started by the repository\'s own launcher (internal/localnet: TLS listeners, rafthttp transport, main()\'s bootstrap and join code, real timers) on loopback; all sequences of depth 2 (quick) / 4 (thorough) over {post, retry, SIGKILL leader, SIGKILL a follower, restart the dead nodes, forced snapshot on every node, SIGKILL all + restart all}, each framed by a post before and after; after every operation EVERY live node serves the reader\'s complete stream up to a marker: acknowledged messages exactly once in post order, the same sequence on all nodes, each node\'s stream extends what it served before',
+    'network tier (TestVerifC05Net, harness/localnet): three REAL robustirc binaries started by the repository\'s own launcher (internal/localnet: TLS listeners, rafthttp transport, main()\'s bootstrap and join code, real timers) on loopback; all sequences of depth 2 (quick) / 3 (thorough) over {post, retry, SIGKILL leader, SIGKILL leader and post at once (the followers still proxy to the dead leader), SIGKILL a follower, restart the dead nodes, forced snapshot on every node, SIGKILL all + restart all}, each framed by a post before and after; after every operation EVERY live node serves the reader\'s complete stream up to a marker: acknowledged messages exactly once in post order, the same sequence on all nodes, each node\'s stream extends what it served before',
     'limit of the network tier: fault SEQUENCES are enumerated exhaustively, the timing inside an operation (which instant of an election or replication a kill hits) is whatever the run produces, not enumerated; at most one node is dead at a time (except crash-all); raft consensus itself is trusted; a wait that exceeds its bound (60-90 s) makes the run inconclusive (exhaustive:false, exit 0), never a violation',
 ]
 RULE = ('single-node tier: all sequences of the given depth over {postA, postB, retryA, snapshot, snapshot with a JOIN/PART of A posted between FSM.Snapshot and Persist (Persist is held back by a wrapper around the FSM handed to raft), SIGKILL+restart, graceful restart, post-then-SIGKILL}; after every operation both sessions read their whole stream through the real GET handler: '
@@ -61,6 +61,6 @@ def replay(path):
     return 0
 
 MANIFEST = dict(engine='api-seq + child processes + network of real binaries', level='fault_enumeration',
-  technique='exhaustive enumeration of fault/operation sequences: (1) depth 4/5 against a real single-node network in a child process that is SIGKILLed and restarted, (2) depth 4/5 on a brand-new network (first session/config, snapshot, kill), (3) depth 2/4 against a three-node network of real robustirc binaries (SIGKILL leader/follower/all, restart, forced snapshots); oracle on the streams served by the real GET handler of every live node after every operation',
+  technique='exhaustive enumeration of fault/operation sequences: (1) depth 4/5 against a real single-node network in a child process that is SIGKILLed and restarted, (2) depth 4/5 on a brand-new network (first session/config, snapshot, kill), (3) depth 2/3 against a three-node network of real robustirc binaries (SIGKILL leader/follower/all, restart, forced snapshots); oracle on the streams served by the real GET handler of every live node after every operation',
   text='Every sequence of posts, retries, forced snapshots, SIGKILL+restart, graceful restart and post-then-SIGKILL up to the depth bound is executed against real raft + real stores + real handlers in a child process; every sequence of leader/follower/all-node SIGKILLs, restarts, snapshots, posts and retries up to the bound is executed against three real binaries on loopback. After every operation every session reads its complete stream (from every live node): acknowledged messages exactly once and in post order, unacknowledged at most once, the same sequence on all nodes, and the stream after a fault must extend the stream served before it.',
   note='In the three-node tier the fault sequences are enumerated, the timing inside an operation (where in an election or replication a kill lands) is not; raft consensus trusted; waits that exceed their bound make the run inconclusive (exhaustive:false), never a violation.')
